@@ -30,7 +30,7 @@ Theorem indirect_colours_resolved_at_store : forall s c, regs_ok s -> is_reg_op 
 Proof. exact VMProofs.renderer_refines_vm. Qed.
 Print Assumptions indirect_colours_resolved_at_store.
 
-Theorem drawop_first_only : forall op n, vec_draws op (S n) = op :: repeat OpOver n.
+Theorem drawop_first_only : forall op n, vec_draws op (Datatypes.S n) = op :: repeat OpOver n.
 Proof.
   intros op n. cbn. f_equal. induction n as [|n IH]; [reflexivity|]. cbn. f_equal. exact IH.
 Qed.
